@@ -56,7 +56,7 @@ func prg(addr uint16, code ...uint8) []byte {
 // ---------------------------------------------------------------------------------------
 // C09: verdicts
 
-var numIterKinds = []string{"absent", "raise", "0", "1", "3", "2.5", "str3", "nil", "true", "table", "0.5", "0.999"}
+var numIterKinds = []string{"absent", "raise", "0", "1", "3", "2.5", "str3", "nil", "true", "table", "0.5", "0.999", "huge"}
 var assertKinds = []string{"true", "false", "nil", "1", "strtrue", "nothing", "truemsg", "raise"}
 var binKinds = []string{"brk", "brk", "brk", "illegal", "bcd", "unmapped", "short", "asmfail", "trapok", "trapraise", "trapmissing", "trapruntime", "trapfirstraise", "trapsecondraise", "toobig"}
 
@@ -70,6 +70,9 @@ func luaNumIters(kind string) string {
 		return "function num_iterations() return '3' end\n"
 	case "table":
 		return "function num_iterations() return {} end\n"
+	case "huge":
+		// 2^63 iterations (the run ends at the first assert that does not return true: the generator plants one)
+		return "function num_iterations() return 9223372036854775808 end\n"
 	}
 	return "function num_iterations() return " + kind + " end\n"
 }
@@ -105,6 +108,9 @@ func verdictCase(r *rng.R, dir string) string {
 		} else {
 			asserts[i] = assertKinds[r.Intn(len(assertKinds))]
 		}
+	}
+	if ni == "huge" {
+		asserts[1] = "false"
 	}
 	arrangeErrAt := -1
 	if r.Chance(12) {
@@ -411,6 +417,9 @@ var _ = cpu.Model6502
 // ---------------------------------------------------------------------------------------
 // C08: every test case starts from the same machine
 
+// isoCoproc: the machines of the current isolation case carry the coprocessor layer (both units, registers at $0380)
+var isoCoproc = false
+
 type dirtyCase struct {
 	name   string
 	driver []byte
@@ -471,6 +480,11 @@ func dirtyPool(spec string, trap bool) []dirtyCase {
 		// expansion / banked memory written ONLY through the linear view
 		{"longonly", prg(0x0800, 0xE8, 0x00), "function arrange() " + longOnly + " end\nfunction assert() return true end\n" + trapFn},
 		{"highbank", prg(0x0800, 0xE8, 0x00), "function arrange() " + high + " end\nfunction assert() return true end\n" + trapFn},
+	}
+	if isoCoproc {
+		// a case that uses the multiplier: 3 * 5 through the registers at $0380, product expected at $0390
+		pool = append(pool, dirtyCase{"coprocuser", prg(0x0800, 0xA9, 0x03, 0x8D, 0x80, 0x03, 0xA9, 0x00, 0x8D, 0x81, 0x03, 0xA9, 0x05, 0x8D, 0x82, 0x03,
+			0xA9, 0x00, 0x8D, 0x83, 0x03, 0x00), "function arrange() end\nfunction assert() return read_byte(0x0390) == 15 end\n" + trapFn})
 	}
 	return append([]dirtyCase{
 		{"clean", prg(0x0800, 0xE8, 0x00), "function arrange() end\nfunction assert() return get_xreg() == 1 end\n" + trapFn},
@@ -541,6 +555,10 @@ func isolationRun(spec string, model string, prexec, trap bool, dir string, case
 	cfg := emuconfig.DefaultConfig()
 	cfg.MemSpec = spec
 	cfg.Model = model
+	if isoCoproc {
+		cfg.F256MCoprocFlags = 5
+		cfg.F256MCoprocBase = 0x0380
+	}
 	repo, _ := verifier.NewCaseRepo(dir, "")
 	ce := caseexec.NewCaseExec(cfg, fakeAsmProv{fa}, repo, false)
 	var outBuf strings.Builder
@@ -557,7 +575,11 @@ func isolationRun(spec string, model string, prexec, trap bool, dir string, case
 	// setup program loaded and run on it (if any), registers and statistics reset
 	ref := "ref-failed"
 	protect(func() {
-		rc, err := cfg.NewCpu()
+		// (from a configuration object of its own: the one the case executor uses sees the cases first)
+		cfg2 := emuconfig.DefaultConfig()
+		cfg2.MemSpec, cfg2.Model = spec, model
+		cfg2.F256MCoprocFlags, cfg2.F256MCoprocBase = cfg.F256MCoprocFlags, cfg.F256MCoprocBase
+		rc, err := cfg2.NewCpu()
 		if err != nil {
 			return
 		}
@@ -599,6 +621,8 @@ func isolationCase(r *rng.R, dir string) string {
 		spec = []string{"Linear32K", "XSixteen2048K", "XSixteen512K", "GeoRam_2048K", "F256_768K"}[r.Intn(5)]
 	}
 	prexec, trap := r.Bool(), r.Bool()
+	isoCoproc = r.Chance(30)
+	defer func() { isoCoproc = false }()
 	pool := dirtyPool(spec, trap)
 	if !trap {
 		pool = append(pool[:5], pool[6:]...)
@@ -614,7 +638,7 @@ func isolationCase(r *rng.R, dir string) string {
 		for _, dc := range cases {
 			nm = append(nm, dc.name)
 		}
-		pend("isolation %s.%s %v %v %s", spec, model, prexec, trap, strings.Join(nm, ","))
+		pend("isolation %s.%s%s %v %v %s", spec, model, map[bool]string{true: "+cop", false: ""}[isoCoproc], prexec, trap, strings.Join(nm, ","))
 	}
 	starts, results := isolationRun(spec, model, prexec, trap, dir, cases)
 	eq := []string{}
@@ -632,6 +656,10 @@ func isolationCase(r *rng.R, dir string) string {
 		v := "1"
 		if i >= len(results) || len(soloRes) != 1 || results[i] != soloRes[0] {
 			v = "0"
+		} else if dc.name != "trapless" && dc.name != "trapuser" && strings.HasPrefix(results[i], "true|") != (dc.name != "failing") {
+			// (the two cases that store to $7F00 have no unconditional verdict: it depends on memory size and trap address)
+			// the same verdict every time, but not the one this case has on the documented machine
+			v = "E"
 		}
 		eq = append(eq, s+v)
 	}
@@ -647,7 +675,7 @@ func isolationCase(r *rng.R, dir string) string {
 	if trap {
 		tr = 1
 	}
-	return fmt.Sprintf("isolation %s.%s %d %d %s => %s", spec, model, pe, tr, strings.Join(names, ","), strings.Join(eq, ","))
+	return fmt.Sprintf("isolation %s.%s%s %d %d %s => %s", spec, model, map[bool]string{true: "+cop", false: ""}[isoCoproc], pe, tr, strings.Join(names, ","), strings.Join(eq, ","))
 }
 
 // soloInChild runs one case of the pool alone in a child process of this binary (cached: the result is a function of
@@ -655,11 +683,11 @@ func isolationCase(r *rng.R, dir string) string {
 var soloCache = map[string][2]string{}
 
 func soloInChild(spec, model string, prexec, trap bool, name string) ([]string, []string) {
-	key := fmt.Sprintf("%s %s %v %v %s", spec, model, prexec, trap, name)
+	key := fmt.Sprintf("%s %s %v %v %s %v", spec, model, prexec, trap, name, isoCoproc)
 	if v, ok := soloCache[key]; ok {
 		return []string{v[0]}, []string{v[1]}
 	}
-	cmd := exec.Command(os.Args[0], "isochild", spec, model, fmt.Sprint(prexec), fmt.Sprint(trap), name)
+	cmd := exec.Command(os.Args[0], "isochild", spec, model, fmt.Sprint(prexec), fmt.Sprint(trap), name, fmt.Sprint(isoCoproc))
 	outb, err := cmd.Output()
 	parts := strings.Split(string(outb), "\x1e")
 	if err != nil || len(parts) != 3 {
@@ -672,6 +700,7 @@ func soloInChild(spec, model string, prexec, trap bool, name string) ([]string, 
 // isoChild: `corr isochild <spec> <model> <prexec> <trap> <case name>`
 func isoChild(args []string) {
 	spec, model, prexec, trap, name := args[0], args[1], args[2] == "true", args[3] == "true", args[4]
+	isoCoproc = len(args) > 5 && args[5] == "true"
 	dir, err := os.MkdirTemp("", "verif-iso")
 	if err != nil {
 		os.Exit(3)
